@@ -43,6 +43,10 @@ REQUESTS = {
     # then found on other data than in V9) and again afterwards
     "V10": (["compute_tip_position", "smooth_height",
              "correct_split_approach_retract", "smooth_height"], {}, False),
+    # an option left out (the step's own default applies) next to the
+    # same request with the other value of that option given
+    "V11": (PS, {}, False),
+    "V12": (PS, {"correct_force_slope": {"strategy": "drift"}}, False),
     "I1": (["compute_tip_position", "nope"], {}, True),
     "I2": (["correct_tip_offset"], {}, True),
     "I3": (P1, {"correct_tip_offset": {"method": "bogus"}}, True),
@@ -297,7 +301,8 @@ class Recorded(Driver):
 
     def __init__(self):
         super().__init__()
-        keep = ("V2", "V3", "V5", "V7", "V8", "V9", "V10", "I1", "I3", "I5")
+        keep = ("V2", "V3", "V5", "V7", "V8", "V9", "V10", "V11", "V12",
+                "I1", "I3", "I5")
         self.ops = [o for o in self.ops
                     if (o[0] == "P" and o[4] in keep and not o[3])
                     or (o[0] == "F" and (o[2] in keep or o[2] is None)
